@@ -1,6 +1,6 @@
 SPECIFICATION Spec
 CONSTANTS
-  Alphabet = {"2", "3", "^", "/", "-", "(", ")"}
+  Alphabet = {"2", "3", "TRUE", "^", "/", "-", "(", ")"}
   MaxLen = 7
   EmitObl = TRUE
 INVARIANT TypeOK
